@@ -1,5 +1,6 @@
 import GwModel.Trans.Transparent
 import GwModel.Gen.Facts
+import GwModel.Point
 /-! # C01 — Federated execution is transparent: gateway data equals monolith data
 
 Proved here (model `Tr`, GwModel/Trans): for the core query class (fields, aliases, nested selections,
@@ -34,5 +35,24 @@ theorem transparent_core (st : Store) (r : Routing) (L T : Nat) (l : List Sel) (
 example : NodupSels qT ∧ (splitSels rT 0 0 qT).2.length = 2 := by
   refine ⟨?_, by decide⟩
   simp [qT, NodupSels, NodupSel, aliases, aliasOf]
+
+/-- **insertion points survive their string encoding**: a realised insertion point is rendered as
+    `<key>[:<index>][#<id>]` and parsed back by `executorGetPointData`; whatever the id (':' '#' blanks, any
+    unicode, empty) and the index, the parts come back unchanged — "no value is attached to the wrong list
+    element" does not depend on what ids look like.  (`Pt.parsePoint`/`Pt.isListElement` are tied to execute.go
+    by the L2.point correspondence.) -/
+theorem point_roundtrip (key : List Char) (idx : Option Nat) (id : Option (List Char))
+    (hk1 : '#' ∉ key) (hk2 : ':' ∉ key) :
+    Pt.parsePoint (Pt.renderPoint key idx id) = some ⟨key, idx, id.getD []⟩ :=
+  Pt.point_roundtrip key idx id hk1 hk2
+
+theorem point_is_list_element_iff_indexed (key : List Char) (idx : Option Nat) (id : Option (List Char))
+    (hk0 : key ≠ []) (hk1 : '#' ∉ key) (hk2 : ':' ∉ key) :
+    Pt.isListElement (Pt.renderPoint key idx id) = idx.isSome :=
+  Pt.isListElement_render key idx id hk0 hk1 hk2
+
+/-- non-vacuity: an id made of separators only -/
+example : Pt.parsePoint (Pt.renderPoint "users".toList (some 12) (some "#:#".toList)) = some ⟨"users".toList, some 12, "#:#".toList⟩ :=
+  point_roundtrip _ _ _ (by decide) (by decide)
 
 end Props.C01
